@@ -330,6 +330,34 @@ def check_collect(repo, rep, mod):
     rep.ob('R17d', c.key + '/reports-exclusivity', ok,
            'Context.get_functions must return (overloads, name in '
            'self._exclusive_funcs)', loc=mod.loc(c.node))
+    if ok:
+        # exclusivity is a property of the layer and the name only: it
+        # must not depend on which overloads survived the caller's
+        # predicate (call kind)
+        e = rets[0].value.elts[1]
+        local = model.local_names_of(c.node) - {c.params()[1]}
+        dep = set()
+        for nm in model.names_loaded(e):
+            if nm in ('self', c.params()[1]):
+                continue
+            # a local: is it computed from the predicate / the overloads?
+            if nm in local:
+                dep.add(nm)
+        filtered = {t.id for s2 in model.walk_shallow(c.node)
+                    if isinstance(s2, ast.Assign) and any(
+                        'predicate' in model.norm(s2.value) or
+                        'filter' in model.norm(s2.value)
+                        for _ in [0]) for t in s2.targets
+                    if isinstance(t, ast.Name)}
+        bad = dep & filtered
+        rep.ob('R17d', c.key + '/exclusivity-independent-of-predicate',
+               not bad,
+               'whether a layer stops the walk must depend only on the '
+               'name having been registered exclusively in it; the flag '
+               'depends on %s (the overloads that passed the caller\'s '
+               'predicate): a layer that registered the name exclusively '
+               'no longer hides outer layers for other call kinds' %
+               sorted(bad), loc=mod.loc(e), construct=model.norm(e))
 
 
 def check_writes(repo, rep, mod):
@@ -369,6 +397,59 @@ def check_writes(repo, rep, mod):
     rep.ob('R17e', ms.key + '/first-member', ok,
            'a multi-context stores variables into its first member',
            loc=mod.loc(ms.node))
+
+
+def check_store_on_all_paths(repo, rep, mod):
+    """Every normal path through __setitem__ stores the value into the own
+    layer: a binding (also to null) always shadows outer layers."""
+    for cname in CLASSES:
+        m = mod.cls(cname).methods.get('__setitem__')
+        if m is None:
+            continue
+        g = cfgmod.CFG(m.node)
+        val = m.params()[-1]
+        stores = []
+        for nd in g.nodes:
+            a = nd.ast
+            if nd.kind == 'stmt' and isinstance(a, ast.Assign) and \
+                    isinstance(a.targets[0], ast.Subscript) and \
+                    isinstance(a.value, ast.Name) and a.value.id == val:
+                stores.append(nd)
+        skip = g.reaches_exit_without(g.entry, stores)
+        rep.ob('R17e', m.key + '/stores-on-every-path',
+               bool(stores) and not skip,
+               '%s.__setitem__ has a path that does not store the value: '
+               'an assignment (e.g. of null) then fails to shadow a binding '
+               'of the same name in an outer layer' % cname,
+               loc=mod.loc(m.node))
+
+
+def check_reads_are_pure(repo, rep, mod):
+    """Lookups never write: what a read returns depends on the layers, not
+    on which reads happened before."""
+    reads = ('get_data', '__getitem__', '__contains__', 'keys',
+             'get_functions', 'collect_functions', 'parent', 'convention',
+             '__call__')
+    n = 0
+    for cname in ('ContextBase',) + CLASSES:
+        ci = mod.cls(cname)
+        for meth in reads:
+            m = ci.methods.get(meth)
+            if m is None:
+                continue
+            n += 1
+            ws = [w for w in effects.writes_in(m.node)
+                  if w.kind != 'aug-name' and (
+                      w.root == 'self' or (w.root is None and 'self' in
+                                           model.norm(w.target)))]
+            rep.ob('R17g', m.key, not ws,
+                   '%s.%s is a lookup but writes to the context (%s): '
+                   'later lookups can return what an earlier one cached '
+                   'instead of the value of the nearest layer that defines '
+                   'the name' % (cname, meth, [model.norm(w.node)[:60]
+                                               for w in ws]),
+                   loc=mod.loc(ws[0].node if ws else m.node))
+    rep.floor('context lookup methods', n, 15)
 
 
 def check_multi(repo, rep, mod):
@@ -460,6 +541,8 @@ def run(repo, rep):
              'exclusive, appends non-empty layers in walk order')
     rep.rule('R17e', 'WRITES-GO-TO-THE-OWN-LAYER')
     rep.rule('R17f', 'MULTI IS A MERGE / LINKED IS A PROXY')
+    rep.rule('R17g', 'LOOKUPS-ARE-PURE: get_data, __contains__, keys, '
+             'get_functions, collect_functions never write to the context')
     rep.explanation = (
         'Necessary interface-discipline clauses of the three context '
         'classes, decided on their ASTs/CFGs (key normalisation by def-use, '
@@ -472,5 +555,7 @@ def run(repo, rep):
     check_get_data(repo, rep, mod)
     check_collect(repo, rep, mod)
     check_writes(repo, rep, mod)
+    check_store_on_all_paths(repo, rep, mod)
+    check_reads_are_pure(repo, rep, mod)
     check_multi(repo, rep, mod)
     rep.count(context_classes=len(CLASSES))
